@@ -14,6 +14,7 @@ from typing import (
 )
 
 from pyparsing import (
+    Keyword,
     ParseException,
     Word,
     alphanums,
@@ -274,14 +275,21 @@ class ConditionNOT(ConditionExpression):
 def parse_condition_expression(
     condition_expression: str,
 ) -> ConditionExpression:
-    identifier = Word(alphanums + "_-")
-    identifier.set_parse_action(ConditionIdentifier.from_parsed)
+    identifier_chars = alphanums + "_-"
+    # The operators are whole words: an identifier may begin with one of them (not_windows,
+    # android, order).
+    operator_not, operator_and, operator_or = (
+        Keyword(operator, ident_chars=identifier_chars) for operator in ("not", "and", "or")
+    )
+    identifier = Word(identifier_chars)
+    identifier.add_condition(lambda tokens: tokens[0] not in ("not", "and", "or"))
+    identifier.add_parse_action(ConditionIdentifier.from_parsed)
     condition_parser = infix_notation(
         identifier,
         [
-            ("not", 1, opAssoc.RIGHT, ConditionNOT.from_parsed),
-            ("and", 2, opAssoc.LEFT, ConditionAND.from_parsed),
-            ("or", 2, opAssoc.LEFT, ConditionOR.from_parsed),
+            (operator_not, 1, opAssoc.RIGHT, ConditionNOT.from_parsed),
+            (operator_and, 2, opAssoc.LEFT, ConditionAND.from_parsed),
+            (operator_or, 2, opAssoc.LEFT, ConditionOR.from_parsed),
         ],
     )
     try:
